@@ -63,8 +63,9 @@ def _cases(ctx, nl):
     rng = random.Random(ctx.seed * 13 + 4)
     cases = []
     hist = {'lenses': 0, 'mirrors': 0, 'finite_object': 0, 'stop_first': 0, 'stop_last': 0, 'aperture': {}, 'field': {}}
-    for li in range(nl):
-        spec = lensgen.gen_spec(rng, allow=['plane', 'standard', 'conic', 'even_asphere'], decenter=False)
+    corp = [c for c in lensgen.corpus() if c['name'] in ('mangin', 'image-in-glass', 'tir-planoconvex')]
+    for li in range(nl + len(corp)):
+        spec = dict(corp[li]) if li < len(corp) else lensgen.gen_spec(rng, allow=['plane', 'standard', 'conic', 'even_asphere'], decenter=False)
         edits = []
         try:
             o = lensgen.build(spec)
